@@ -288,6 +288,15 @@ func genC01(t *rapid.T, typ uint8) model.Packet {
 	if rapid.IntRange(0, 24).Draw(t, "steerproplen") == 0 {
 		steerPropertyLength(&m, rapid.SampledFrom(propLenTargets).Draw(t, "proplentarget"))
 	}
+	if typ == model.CONNECT && rapid.IntRange(0, 7).Draw(t, "protolevel") == 0 {
+		// the protocol level is a byte the setters take as it is: a client
+		// that announces 3.1.1 (or anything else) still builds, writes and
+		// reads back the packet it set up
+		m.ProtocolVersion = rapid.SampledFrom([]uint8{4, 4, 3, 6, 0, 255}).Draw(t, "protolevelv")
+		if m.ProtocolVersion == 3 && rapid.Bool().Draw(t, "mqisdp") {
+			m.ProtocolName = "MQIsdp"
+		}
+	}
 	if typ == model.PUBLISH {
 		switch k := rapid.IntRange(0, 399).Draw(t, "rlclass"); {
 		case k < 32:
